@@ -86,12 +86,14 @@ func qualifiedFuncName(f *ssa.Function) string {
 }
 
 type CallGraph struct {
-	w       *World
-	Sites   map[*ssa.Function][]*Site
-	Refs    map[*ssa.Function][]*ssa.Function // functions referenced as values (closures, method values)
-	Callers map[*ssa.Function][]*Site
-	impls   map[string][]*ssa.Function // iface method key -> module implementations
-	fvals   []*ssa.Function            // module functions whose value is taken somewhere
+	w         *World
+	Sites     map[*ssa.Function][]*Site
+	Refs      map[*ssa.Function][]*ssa.Function // functions referenced as values (closures, method values)
+	Callers   map[*ssa.Function][]*Site
+	impls     map[string][]*ssa.Function // iface method key -> module implementations
+	fvals     []*ssa.Function            // module functions whose value is taken somewhere
+	accessors map[*ssa.Function]*storeAccessor
+	accBusy   map[*ssa.Function]bool
 }
 
 func (w *World) CG() *CallGraph {
